@@ -57,6 +57,16 @@ def cases(draw, allow_unweighted_reductions=True):
     if has_w:
         red = draw(st.sampled_from(list(WEIGHTED)))
         weights = [draw(st.lists(st.one_of(gen.finite(0.01, 100), st.integers(1, 9).map(float)), min_size=n, max_size=n)) for _ in range(ncomp)]
+        # zero weights: such a point contributes nothing to the weighted value but is still a member of its block (coordinates, inferred region);
+        # never every member of a block (numpy.average refuses weights that sum to zero)
+        members = {}
+        for idx, p in enumerate(pts):
+            members.setdefault((p[0], p[2]), []).append(idx)
+        for idxs in members.values():
+            if len(idxs) >= 2 and draw(st.integers(0, 2)) == 0:
+                victim = draw(st.sampled_from(idxs))
+                for c in (range(ncomp) if draw(st.booleans()) else [draw(st.integers(0, ncomp - 1))]):
+                    weights[c][victim] = 0.0
     else:
         red = draw(st.sampled_from(list(REDUCTIONS)))
         weights = None
